@@ -119,6 +119,7 @@ def spec_files(spec: dict):
         disc = GA.random_disc(rng, small=True)
         img, info = GA.serialize(disc, rng)
         img = bytearray(img)
+        info["_spec"] = spec
         apply_patches(img, spec["patches"], rng, "akai", info)
         return {"x.img": bytes(img)}, "x.img"
     if fam == "roland":
@@ -164,7 +165,19 @@ def apply_patch(img: bytearray, kind, rng, fam: str, info: dict):
                 for _ in range(rng.randint(5, 400)):
                     put16(img, 1802 + 2 * rng.randrange(0, 11386), rng.choice(AKAI_SPECIAL + [rng.randrange(65536), rng.randrange(0, 64)]))
             elif kind == "psize":
-                put16(img, 0, rng.choice([0, 1, 2, 3, 0xFFFF, 0x8000, rng.randrange(65536)]))
+                # the size field of one partition header (S57: a header that is otherwise valid and declares 0 sectors)
+                starts, off = [], 0
+                while off + 2 <= len(img) and len(starts) < 8:
+                    starts.append(off)
+                    sz = get16(img, off)
+                    if sz == 0:
+                        break
+                    off += sz * 8192
+                spec = info.get("_spec", {})
+                which = spec.get("pwhich") or rng.choice(["first", "last", "any"])
+                at = starts[0] if which == "first" else starts[-1] if which == "last" else rng.choice(starts)
+                val = spec["pvalue"] if "pvalue" in spec else rng.choice([0, 0, 1, 2, 3, 0xFFFF, 0x8000, rng.randrange(65536)])
+                put16(img, at, val)
             elif kind == "volentry":
                 k = rng.randrange(0, 4)
                 off = 202 + 16 * k + rng.choice([0, 5, 12, 13, 14, 15])
@@ -378,6 +391,9 @@ def make_specs(ctx, rng, full: bool):
         add(family="rand", size=0, prefix="sparse-roland", noise=rng.choice([0, 200, 5000, 40000]))
     akai_kinds = ["phantom-chain", "truncate", "sat-special", "sat-link", "sat-2cycle", "sat-noise", "psize", "volentry", "volstart", "dir", "filehdr", "burst"]
     rol_kinds = ["phantom-chain", "truncate", "fat-special", "fat-link", "fat-2cycle", "fat-selfloop", "fat-noise", "fat-longcycle", "counts", "ptrlist", "partial", "samplepar", "sampledir", "burst"]
+    for pv in (0, 1, 0xFFFF):
+        for pw in ("first", "last"):
+            add(family="akai", patches=["psize"], pvalue=pv, pwhich=pw)
     reps = ctx.n(4, 60)
     for kind in akai_kinds:
         for _ in range(reps):
